@@ -412,10 +412,25 @@ func genDataSpec(s *Stream) dataSpec {
 
 // hostLog records what host functions saw; one per data map (so per task).
 type hostLog struct {
-	calls []string
+	calls  []string
+	n      int // host invocations since reset
+	failAt int // the failAt-th invocation returns an injected error (0: none)
+	fired  int
 }
 
 func (h *hostLog) add(s string) { h.calls = append(h.calls, s) }
+
+// tick counts an invocation and says whether the fault plan makes it fail.
+func (h *hostLog) tick() error {
+	h.n++
+	if h.failAt != 0 && h.n == h.failAt {
+		h.fired++
+		return errInjected
+	}
+	return nil
+}
+
+var errInjected = errors.New("injected host failure")
 
 func (d dataSpec) num(i int) interface{} {
 	v := d.Nums[i%len(d.Nums)]
@@ -476,14 +491,21 @@ func (d dataSpec) build(log *hostLog, loc *time.Location) map[string]interface{}
 	if log != nil {
 		m["f_id"] = func(x interface{}) (interface{}, error) {
 			log.add("f_id(" + render(x) + ")")
+			if err := log.tick(); err != nil {
+				return nil, err
+			}
 			return x, nil
 		}
 		m["f_err"] = func(x interface{}) (interface{}, error) {
 			log.add("f_err(" + render(x) + ")")
+			log.tick()
 			return nil, errors.New("host failure")
 		}
 		m["f_sum"] = func(ctx context.Context, a *decimal.Big, b int) (*decimal.Big, error) {
 			log.add("f_sum(" + render(a) + "," + strconv.Itoa(b) + ")")
+			if err := log.tick(); err != nil {
+				return nil, err
+			}
 			if a == nil {
 				return nil, errors.New("nil number")
 			}
@@ -491,6 +513,9 @@ func (d dataSpec) build(log *hostLog, loc *time.Location) map[string]interface{}
 		}
 		m["f_cat"] = func(parts ...string) (string, error) {
 			log.add("f_cat(" + strings.Join(parts, "|") + ")")
+			if err := log.tick(); err != nil {
+				return "", err
+			}
 			return strings.Join(parts, ""), nil
 		}
 		m["f_map"] = func(mm map[string]int) (int, error) {
@@ -499,6 +524,9 @@ func (d dataSpec) build(log *hostLog, loc *time.Location) map[string]interface{}
 				t += v
 			}
 			log.add("f_map(" + strconv.Itoa(len(mm)) + ")")
+			if err := log.tick(); err != nil {
+				return 0, err
+			}
 			return t, nil
 		}
 	}
